@@ -16,6 +16,7 @@ def build_arg(ffi, d, cells, keep):
     k = d[0]
     if k == "int": return int(d[1])
     if k == "float": return struct.unpack("<d", bytes.fromhex(d[1]))[0]
+    if k == "complex": return complex(struct.unpack("<d", bytes.fromhex(d[1]))[0], struct.unpack("<d", bytes.fromhex(d[2]))[0])
     if k == "bytes": return bytes(d[1])
     if k == "str": return d[1]
     if k == "none": return None
@@ -42,9 +43,12 @@ def enc_result(ffi, r, cells, tla_type_of_ctype, img8, le_bytes):
     if isinstance(r, bool): return {"k": "pybool", "b": r}
     if isinstance(r, int): return {"k": "int", "neg": r < 0, "mag": le_bytes(abs(r))}
     if isinstance(r, float): return {"k": "float", "d": img8(r)}
+    if isinstance(r, complex): return {"k": "pycomplex", "re": {"d": img8(r.real)}, "im": {"d": img8(r.imag)}}
     if isinstance(r, bytes): return {"k": "bytes", "data": list(r)}
     if isinstance(r, ffi.CData):
         ct = ffi.typeof(r)
+        if ct.kind == "primitive" and ct.cname == "long double":
+            return {"k": "cldouble", "d": img8(float(r))}
         if ct.kind == "array":          # the array field of a struct result
             return {"k": "carr", "vals": [enc_result(ffi, r[i], cells, tla_type_of_ctype, img8, le_bytes)
                                           for i in range(len(r))]}
@@ -69,18 +73,32 @@ def enc_result(ffi, r, cells, tla_type_of_ctype, img8, le_bytes):
     return {"k": "other", "repr": type(r).__name__}
 
 
+def failed(case, what, e=None):
+    """The recorded outcome of a call that could not even be made on this path."""
+    return {"exc": what + (":" + type(e).__name__ if e is not None else ""), "ret": {"k": "none"},
+            "msg": str(e)[:200] if e is not None else "", "errno": case["errno"],
+            "mem": [list(c[2]) for c in case["cells"]]}
+
+
 def run_case(ffi, getfn, case, G):
     keep = []
     cells = []
-    for ctype, n, data in case["cells"]:
-        c = ffi.new("%s[%d]" % (ctype, n))
-        ffi.buffer(c)[:] = bytes(data)
-        cells.append(c)
-    args = [build_arg(ffi, d, cells, keep) for d in case["args"]]
-    fn = getfn(case["fname"])
-    if case.get("prime"):
+    try:
+        for ctype, n, data in case["cells"]:
+            c = ffi.new("%s[%d]" % (ctype, n))
+            ffi.buffer(c)[:] = bytes(data)
+            cells.append(c)
+        args = [build_arg(ffi, d, cells, keep) for d in case["args"]]
+        prime = [build_arg(ffi, d, cells, keep) for d in case["prime"]] if case.get("prime") else None
+    except Exception as e:               # the types of this path's ffi cannot even build the arguments
+        return failed(case, "SetupError", e)
+    try:
+        fn = getfn(case["fname"])
+    except Exception as e:               # the function cannot be fetched / its type cannot be realised
+        return failed(case, "FetchError", e)
+    if prime is not None:
         try:
-            fn(*[build_arg(ffi, d, cells, keep) for d in case["prime"]])
+            fn(*prime)
         except Exception:
             pass
     ffi.errno = case["errno"]
@@ -89,37 +107,55 @@ def run_case(ffi, getfn, case, G):
     except Exception as e:
         obs = {"exc": type(e).__name__, "ret": {"k": "none"}, "msg": str(e)[:200]}
     else:
-        obs = {"exc": "", "ret": enc_result(ffi, r, cells, G.tla_type_of_ctype, G.img8, G.le_bytes)}
+        try:
+            obs = {"exc": "", "ret": enc_result(ffi, r, cells, G.tla_type_of_ctype, G.img8, G.le_bytes)}
+        except Exception as e:
+            obs = {"exc": "", "ret": {"k": "unreadable", "exc": type(e).__name__}}
     obs["errno"] = ffi.errno
     obs["mem"] = [list(ffi.buffer(c)[:]) for c in cells]
     return obs
 
 
 def load_paths(plan):
-    """{path name: (ffi, getter)} for the libraries named in the plan."""
+    """{path name: (ffi, getter, lib)} for the libraries named in the plan; a path whose module
+    cannot be imported / opened is {path name: Exception} (a recorded outcome, not a failure
+    of the harness)."""
     import cffi
     d = plan["dir"]
     if d not in sys.path:
         sys.path.insert(0, d)
     paths = {}
     want = plan["paths"]
-    if "api" in want or "addr" in want:
+
+    def attempt(names, loader):
+        names = [n for n in names if n in want]
+        if not names:
+            return
+        try:
+            got = loader()
+        except Exception as e:
+            got = dict((n, e) for n in names)
+        for n in names:
+            paths[n] = got[n]
+
+    def load_api():
         m = importlib.import_module(plan["api_module"])
-        if "api" in want:
-            paths["api"] = (m.ffi, lambda n, m=m: getattr(m.lib, n), m.lib)
-        if "addr" in want:
-            paths["addr"] = (m.ffi, lambda n, m=m: m.ffi.addressof(m.lib, n), m.lib)
-    if "inline" in want:
+        return {"api": (m.ffi, lambda n, m=m: getattr(m.lib, n), m.lib),
+                "addr": (m.ffi, lambda n, m=m: m.ffi.addressof(m.lib, n), m.lib)}
+
+    def load_inline():
         f = cffi.FFI()
         f.cdef(plan["cdef"])
         lib = f.dlopen(plan["so"])
-        paths["inline"] = (f, lambda n, lib=lib: getattr(lib, n), lib)
-    if "ool" in want:
+        return {"inline": (f, lambda n, lib=lib: getattr(lib, n), lib)}
+
+    def load_ool():
         m2 = importlib.import_module(plan["ool_module"])
         lib2 = m2.ffi.dlopen(plan["so"])
-        paths["ool"] = (m2.ffi, lambda n, lib2=lib2: getattr(lib2, n), lib2)
-    for name in ("verify_cpy", "verify_gen"):
-        if name in want:
+        return {"ool": (m2.ffi, lambda n, lib2=lib2: getattr(lib2, n), lib2)}
+
+    def load_verify(name):
+        def load():
             import warnings
             f = cffi.FFI()
             f.cdef(plan["cdef"])
@@ -127,29 +163,50 @@ def load_paths(plan):
                 warnings.simplefilter("ignore")
                 lib = f.verify(plan["src"], tmpdir=os.path.join(d, name), modulename=plan[name + "_module"],
                                force_generic_engine=(name == "verify_gen"))
-            paths[name] = (f, lambda n, lib=lib: getattr(lib, n), lib)
+            return {name: (f, lambda n, lib=lib: getattr(lib, n), lib)}
+        return load
+    attempt(["api", "addr"], load_api)
+    attempt(["inline"], load_inline)
+    attempt(["ool"], load_ool)
+    for name in ("verify_cpy", "verify_gen"):
+        attempt([name], load_verify(name))
     return paths
 
 
 def main(plan_path, out_path):
+    """Results are appended one JSON line per finished case, so that a crash loses one case only;
+    plan["done"] = ids already finished, plan["skip"] = [[id, path]] calls that killed an earlier
+    run of this plan (recorded as outcome "Crash"), plan["dead"] = paths not to be used any more."""
     sys.path.insert(0, os.path.dirname(os.path.dirname(os.path.abspath(__file__))))
     from harness import call_gen as G
     with open(plan_path) as f:
         plan = json.load(f)
-    paths = load_paths(plan)
+    done = set(plan.get("done", []))
+    skip = set((c, p) for c, p in plan.get("skip", []))
+    dead = set(plan.get("dead", []))
     prog = open(out_path + ".progress", "w")
-    out = {}
+    out = open(out_path, "a")
+    prog.write("0 load\n")
+    prog.flush()
+    paths = load_paths(plan)
     for case in plan["cases"]:
+        if case["id"] in done:
+            continue
         obs = {}
         for p in plan["paths"]:
+            if (case["id"], p) in skip or p in dead:
+                obs[p] = failed(case, "Crash")
+                continue
+            if isinstance(paths[p], Exception):
+                obs[p] = failed(case, "LoadError", paths[p])
+                continue
             prog.write("%s %s\n" % (case["id"], p))
             prog.flush()
-            ffi, getfn = paths[p][0], paths[p][1]
-            obs[p] = run_case(ffi, getfn, case, G)
-        out[str(case["id"])] = obs
-    with open(out_path + ".tmp", "w") as f:
-        json.dump(out, f)
-    os.rename(out_path + ".tmp", out_path)
+            obs[p] = run_case(paths[p][0], paths[p][1], case, G)
+        out.write(json.dumps({"id": case["id"], "obs": obs}) + "\n")
+        out.flush()
+    out.close()
+    open(out_path + ".ok", "w").close()
 
 
 def prebuild(plan_path, name):
